@@ -251,6 +251,23 @@ Proof.
   - cbn [forallb row_ok]. rewrite R. apply IH, Hv.
 Qed.
 
+Lemma assemble_length m : forall ds vals, length (assemble m ds vals) = length ds.
+Proof.
+  induction ds as [|d ds IH]; intros vals; [reflexivity|]. cbn [assemble].
+  destruct (d =? m); [destruct vals|]; cbn [length]; rewrite IH; reflexivity.
+Qed.
+
+Lemma rows_of_batch_length c b : batch_ok c b = true -> length (rows_of_batch c b) = b_nrows b.
+Proof.
+  unfold batch_ok, rows_of_batch. intros H. apply andb_prop in H. destruct H as [_ H].
+  destruct (c_rep c).
+  - rewrite map_length. apply Nat.eqb_eq, H.
+  - destruct (b_defs b) as [ds|].
+    + apply andb_prop in H. destruct H as [H _]. apply andb_prop in H. destruct H as [H _].
+      rewrite assemble_length. apply Nat.eqb_eq, H.
+    + rewrite map_length. apply Nat.eqb_eq, H.
+Qed.
+
 Lemma len_app' {A} (a b : list A) : len (a ++ b) = len a + len b.
 Proof. unfold len. rewrite app_length. lia. Qed.
 
@@ -512,6 +529,12 @@ Proof.
   rewrite firstn_all2 by (rewrite repeat_length; lia). reflexivity.
 Qed.
 
+Lemma encode_levels_1 l : encode_levels 1 l = le32 (len (RleModel.encode_all 1 l)) ++ RleModel.encode_all 1 l.
+Proof. reflexivity. Qed.
+
+Lemma rd_width_1 : bit_width_for_max 1 = 1%nat.
+Proof. reflexivity. Qed.
+
 (** OPTIONAL column: length-prefixed level block, then the PLAIN encoding of the non-null values *)
 Lemma body_optional c rows : column_ok c = true -> c_rep c = Optional -> forallb (row_ok c) rows = true ->
   len rows < 2 ^ 31 ->
@@ -519,16 +542,16 @@ Lemma body_optional c rows : column_ok c = true -> c_rep c = Optional -> forallb
   read_data_page_v1 c (encode_levels 1 (levels_of rows) ++ plain_all (c_type c) (dense rows)) (len rows)
   = Ok (levels_of rows, dense rows).
 Proof.
-  intros Hc R Iok Hn Hsz. unfold read_data_page_v1, max_def. rewrite R. change (0 <? 1) with true. cbn iota.
-  unfold encode_levels in *. change (1 =? 0) with false in *. cbn iota in *.
-  change (PageWriterModel.bit_width_for_max 1) with 1%nat in *. change (bit_width_for_max 1) with 1%nat.
-  rewrite <- app_assoc in *. rewrite !len_app' in Hsz.
+  intros Hc R Iok Hn Hsz. unfold read_data_page_v1, max_def. rewrite R.
+  replace (0 <? 1) with true by reflexivity. cbv iota.
+  rewrite rd_width_1. rewrite encode_levels_1 in Hsz |- *.
+  rewrite <- app_assoc in Hsz |- *. rewrite !len_app' in Hsz.
   assert (Nn : N.to_nat (len rows) = length rows) by (unfold len; apply Nat2N.id).
   rewrite read_level_block_spec by lia. rewrite Nn, decode_levels_rle_roundtrip by exact Hn.
   assert (Ll : length (levels_of rows) = length rows) by (unfold levels_of; apply map_length).
   rewrite <- Ll, firstn_all, count_eq_levels. fold (len (dense rows)).
   rewrite decode_plain_all; [reflexivity|exact Hc|apply (dense_ok c rows Iok)|lia|].
-  pose proof (dense_le rows). unfold len in *. lia.
+  pose proof (dense_le rows) as DL. unfold len. unfold len in Hn. lia.
 Qed.
 
 (** decoding the finalized page body returns exactly the rows written, for every partition into calls *)
